@@ -121,9 +121,9 @@ CLAIMED = {
     "C13": (
         "Partial: bounded symbolic execution of the real translate.Translator.ToArrai/FromArrai pair (strict mode) on decoded "
         "documents, of FromArrai/ToArrai on every finite float64 (FP theory), and of //bits.mask / //bits.set; SMT-decided per "
-        "path, counterexamples replayed natively. encoding/json, yaml.v3, CSV text codecs and the wire format are outside.",
+        "path, counterexamples replayed natively; the server wire format as jsonUnescape(jsonEscape(v)) = v with encoding/json replaced by its round-trip contract. encoding/json, yaml.v3 and CSV text codecs are outside.",
         "documents of depth <=2 (width 2 at the top, 1 nested); every finite float64 as a number; bits: all n < 2^8 and all "
-        "subsets of {0..5}; Go maps iterate in insertion order in the executor"),
+        "subsets of {0..5}; wire format: finite float64, strings, booleans, tuples and dense arrays of depth <=2 (sets, offsets, holes excluded); Go maps iterate in insertion order in the executor"),
     "C14": (
         "Bounded symbolic execution of the real //seq helpers (stdSeqContains/HasPrefix/HasSuffix/TrimPrefix/TrimSuffix/Sub/Split/"
         "Join, array helpers, Go strings/bytes functions interpreted from GOROOT) on abstract sequences over a 3-symbol alphabet "
